@@ -306,9 +306,16 @@ func newPartyKeys(firstID int) []*key {
 
 // ---- DID documents and the resolver ----
 
-type vdrStub struct{ docs map[string]*did.Doc }
+type vdrStub struct {
+	docs map[string]*did.Doc
+	park *parker
+}
 
 func (r *vdrStub) Resolve(d string, _ ...vdr.DIDMethodOption) (*did.DocResolution, error) {
+	if r.park != nil {
+		r.park.maybePark(d)
+	}
+
 	doc, ok := r.docs[d]
 	if !ok {
 		return nil, fmt.Errorf("DID %s not found", d)
@@ -478,7 +485,10 @@ func (w *world) layout() {
 		{didB + "#key-1", "RGeneral", x("k1"), true},
 	}}
 
-	for _, dd := range []*docDesc{a, m, b} {
+	// did:ex:p publishes the party's keys once more: resolving it is where the concurrent phase parks a verification
+	pd := two(didP, w.party)
+
+	for _, dd := range []*docDesc{a, m, b, pd} {
 		w.docs[dd.did] = dd
 		w.vdr.docs[dd.did] = dd.build()
 	}
